@@ -13,6 +13,7 @@ Everything here is a pure function of the plan handed in; nothing reads a
 real clock or draws from an unseeded PRNG.
 """
 import io
+import os
 import sys
 import random
 import datetime as _dt
@@ -311,7 +312,7 @@ class _SimFile(io.StringIO):
         self._fail_after = fail_after
         self._written = 0
 
-    def write(self, s):
+    def _write(self, s):
         if self._fail_after is not None:
             room = self._fail_after - self._written
             if len(s) > room:
@@ -323,25 +324,64 @@ class _SimFile(io.StringIO):
         self._written += len(s)
         return super().write(s)
 
+    def write(self, s):                                   # noqa: F811
+        try:
+            return self._write(s)
+        finally:
+            if self._fail_after is not None:
+                self._disk.sync(self._path, self.getvalue())
+
     def close(self):
         if not self.closed:
             self._disk.files[self._path] = self.getvalue()
+            self._disk.sync(self._path)
         super().close()
 
 
 class SimDisk:
-    """path -> text.  Survives invocations and simulated restarts."""
+    """The files of one simulated machine.  The program's text files (opened
+    through the module-level `open`) are kept here, path -> text, with fault
+    injection; they are also written through to a real private directory
+    (`root`, the working directory of this side), so that everything else
+    that can look at a disk - os.path.exists, os.stat, pathlib, numpy's own
+    file functions, binary files - sees the same state.  The private
+    directories (working directory, temporary directory, home) are the
+    durable state: they survive invocations and simulated restarts on the
+    history side and are empty for every oracle evaluation."""
 
-    def __init__(self, files=None):
+    def __init__(self, files=None, root=None):
         self.files = dict(files or {})
         self.torn = {}        # path -> number of characters that fit
         self.opens = []
+        self.root = root
+        for p in self.files:
+            self.sync(p)
+
+    def real(self, path):
+        if self.root is None:
+            return None
+        return path if os.path.isabs(path) else os.path.join(self.root, path)
+
+    def sync(self, path, text=None):
+        """Write the simulated content through to the private directory."""
+        rp = self.real(path)
+        if rp is None:
+            return
+        try:
+            with _REAL_OPEN(rp, 'w') as f:
+                f.write(self.files.get(path, '') if text is None else text)
+        except OSError:
+            pass
 
     def open(self, path, mode='r', *a, **kw):
         path = str(path)
         self.opens.append((path, mode))
-        if 'b' in mode:
-            raise ValueError('simulated disk is text only')
+        if 'b' in mode or '+' in mode:
+            # not one of the program's text outputs: the real private disk
+            if self.root is None:
+                raise ValueError('simulated disk is text only')
+            fired('real_disk_passthrough')
+            return _REAL_OPEN(path, mode, *a, **kw)
         if mode.startswith('r'):
             if path in PROC:
                 return io.StringIO(PROC[path])
@@ -349,6 +389,10 @@ class SimDisk:
                 if path.startswith(('/proc/', '/sys/', '/etc/', '/usr/', '/dev/')):
                     # the machine around the program, not the program's files
                     return _REAL_OPEN(path, mode, *a, **kw)
+                rp = self.real(path)
+                if rp is not None and os.path.exists(rp):
+                    fired('real_disk_passthrough')
+                    return _REAL_OPEN(rp, mode, *a, **kw)
                 raise FileNotFoundError(2, 'No such file or directory', path)
             return io.StringIO(self.files[path])
         initial = ''
@@ -358,6 +402,11 @@ class SimDisk:
             raise FileExistsError(17, 'File exists', path)
         if path in self.files and mode.startswith('w'):
             fired('stale_file')
+        rp = self.real(path)
+        if rp is not None:
+            # errors of the real directory (missing parent, a directory of
+            # that name) surface as they would for the program
+            _REAL_OPEN(rp, 'a' if mode.startswith('a') else 'w').close()
         self.files[path] = initial      # 'w' truncates at open time
         fail_after = self.torn.pop(path, None)
         return _SimFile(self, path, initial, fail_after)
